@@ -17,7 +17,7 @@ RULE = ("each case: format, k<=3, N<=6, 1-12 servers with a drawn behaviour each
         "fails with the system quiescent is reported as HANG. Non-trivial = a publish during which at least one write failed or was unacknowledged; distinct by whole case.")
 LEVEL_TEXT = "Fault-plan and schedule search with wire-level ground truth for what was acknowledged."
 ASSUMPTIONS = ["one writer (concurrent writers are C12)", "injected failures strike the write call (slot_testv_and_readv_and_writev); reads used by the survey succeed unless the server is down/disconnected"]
-REQUIRED_CLASSES = ["stale-survey-publish", "success", "error", "success-with-failed-writes", "acked==k", "update", "create-under-faults", "mdmf", "sdmf", "fault-applied-but-unacked"]
+REQUIRED_CLASSES = ["stale-survey-publish", "stale-survey-publish-sibling-share", "stale-shares-before-publish", "stale-shares-before-publish:new-holders-fail", "stale-shares-before-publish:share-numbers-rehomed", "success", "error", "success-with-failed-writes", "acked==k", "update", "create-under-faults", "mdmf", "sdmf", "fault-applied-but-unacked"]
 BUDGET = {"quick": 900, "thorough": 7200}
 KINDS = ["ok", "ok", "ok", "fail-write", "fail-write-nth", "dead-write", "dead-write-nth", "applied-unacked", "disconnect", "late", "down"]
 W = "slot_testv_and_readv_and_writev"
@@ -33,18 +33,38 @@ def cases(draw):
     k = draw(st.integers(1, 3))
     n = draw(st.integers(k, 6))
     nserv = draw(st.integers(1, 12))
+    sib = draw(st.sampled_from([None, None, None, 1]))
+    if sib:
+        # fewer servers than shares: some server holds several share numbers
+        n = max(n, 2)
+        nserv = draw(st.integers(1, n - 1))
     heavy = draw(st.booleans())
     kinds = KINDS[3:] if heavy else KINDS
 
     def fplan():
         return [[draw(st.sampled_from(kinds)), draw(st.integers(0, 8))] for _ in range(nserv)]
     seg = draw(st.sampled_from([8, 16, 64]))
+    case = _case(draw, k, n, nserv, seg, sib, fplan)
+    if case["mid"] and draw(st.booleans()):
+        # the in-place update of a file of several segments whose stale shares sit under the same share numbers as the current ones
+        case.update({"fmt": "mdmf", "op": draw(st.sampled_from(["update", "update-append"])), "size": draw(st.integers(2 * seg + 1, 5 * seg))})
+        case["mid"].update({"leave": True, "failnew": True})
+    return case
+
+
+def _case(draw, k, n, nserv, seg, sib, fplan):
     return {"hsalt": draw(st.integers(0, 15)), "threads": draw(st.sampled_from(["sync", "async"])), "fmt": draw(st.sampled_from(["sdmf", "mdmf"])), "k": k, "n": n, "seg": seg, "size": draw(st.integers(0, 5 * seg)),
             "planA": draw(st.one_of(st.none(), st.just(0).map(lambda _: fplan()))), "planB": fplan(),
             "op": draw(st.sampled_from(["overwrite", "update", "update-append"])), "size2": draw(st.integers(1, 3 * seg)),
             "sched": draw(st.lists(st.integers(0, 9), max_size=draw(st.sampled_from([0, 40, 200])))),
+            # an overwrite in between that some share holders miss: they keep shares of the creation version while its share numbers get new homes
+            "mid": draw(st.sampled_from([None, None, 1])) and {"down": draw(st.lists(st.integers(0, 11), min_size=1, max_size=4)), "failnew": draw(st.booleans()),
+                                                               # ...the writer knows they are away (so their share numbers get new homes) or still lists them
+                                                               "leave": draw(st.booleans())},
             "keyskip": draw(st.integers(0, 7)),      # which fixture key the file gets, hence its storage index and the servers' permuted order
-            "interloper": draw(st.sampled_from([None, None, None, 1])) and {"down": draw(st.lists(st.integers(0, 11), max_size=3)), "gone": draw(st.lists(st.integers(0, 11), max_size=4)), "template": draw(st.sampled_from([0, 1, 2, 3])), "size": draw(st.integers(1, 3 * seg))}}
+            "interloper": (sib or draw(st.sampled_from([None, None, None, 1]))) and {"down": draw(st.lists(st.integers(0, 11), max_size=3)), "gone": draw(st.lists(st.integers(0, 11), max_size=4)), "template": draw(st.sampled_from([0, 1, 2, 3])), "size": draw(st.integers(1, 3 * seg)),
+                                                                           # the interloper gets only part of its shares onto one server that holds several; the writer's write to (one of) them is lost
+                                                                           "sib": sib and [draw(st.integers(0, 11)), draw(st.integers(0, 5)), draw(st.integers(0, 5))]}}
 
 
 class _Done(Exception):
@@ -145,7 +165,8 @@ def run_case(case, ctx):
         if r[0] != "ok":
             return
 
-        def verify(want, desc):
+        def verify(want, desc, alt=()):
+            wants = [want] + list(alt)
             install(g, None)
             for s in g.servers:
                 s.reconnect()
@@ -165,18 +186,33 @@ def run_case(case, ctx):
                 c = MemoryConsumer()
                 d2 = Retrieve(node2, rd.broker, sm, ver).download(c)
                 d2.addCallback(lambda ign: b"".join(c.chunks))
+                if hidden[0]:
+                    # a version this publish could not see (its holders were unreachable for the writer) may carry the same sequence number: then the
+                    # published version must be recoverable, not necessarily the one a full survey ranks first
+                    def others(best):
+                        if best in wants:
+                            return best
+                        rest = sorted(v for v in sm.recoverable_versions() if v != ver and v[0] == ver[0])
+                        if not rest:
+                            return best
+                        c2 = MemoryConsumer()
+                        d3 = Retrieve(node2, rd.broker, sm, rest[0]).download(c2)
+                        d3.addCallback(lambda ign: b"".join(c2.chunks))
+                        return d3
+                    d2.addCallback(others)
                 return d2
             d.addCallback(fetch)
             rr = g.run(d)
             if rr[0] != "ok":
                 ctx.fail("unrecoverable-after-success", "%s reported success but a fresh client cannot read the file afterwards: %r" % (desc, rr), exc=type(rr[1]).__name__ if rr[0] == "err" else rr[0])
-            elif rr[1] != want:
+            elif rr[1] not in wants:
                 first = next((i for i in range(min(len(rr[1]), len(want))) if rr[1][i] != want[i]), min(len(rr[1]), len(want)))
                 what = "the previous contents" if rr[1] == prev[0] else "neither the new nor the previous contents (first difference at offset %d)" % first
                 ctx.fail("stale-after-success", "%s reported success but the best recoverable version found by a full survey holds %d bytes, expected %d: %s" % (desc, len(rr[1]), len(want), what))
         node = r[1]
         cap = node.get_uri()
         prev = [b""]
+        hidden = [False]
         verify(contents, desc)
         prev[0] = contents
         new = pbytes(5, case["size2"])
@@ -208,6 +244,16 @@ def run_case(case, ctx):
                     if case["interloper"]["template"] >= 2:
                         gone |= set(spare[1:])           # a single spare server: both writers must re-home onto it
                     classes.add("stale-survey-publish-template")
+            sibx = None
+            if case["interloper"].get("sib"):
+                per = {}
+                for (sidx, shn, p_) in g.all_share_paths(node.get_storage_index()):
+                    per.setdefault(sidx, []).append(shn)
+                multi = sorted(s_ for s_, v_ in per.items() if len(v_) >= 2)
+                if multi:
+                    sibx = g.servers[multi[case["interloper"]["sib"][0] % len(multi)]]
+                    gone, bdown, after_b_down = set(), [], set()
+                    classes.add("stale-survey-publish-sibling-share")
             for s_ in g.servers:
                 s_.down = s_.idx in gone
             if gone:
@@ -220,14 +266,21 @@ def run_case(case, ctx):
             nodeB = B.nodemaker.create_from_cap(cap)
             for s_ in g.servers:
                 s_.down = s_.idx in gone or s_.idx in bdown
+            if sibx is not None:
+                for s_ in g.servers:
+                    s_.fail[W] = "all"
+                sibx.fail[W] = {sibx.calls.get(W, 0) + case["interloper"]["sib"][1] % len(per[sibx.idx])}
             rB = g.run(nodeB.overwrite(mutfile.mdata(pbytes(7, case["interloper"]["size"]))))
+            if sibx is not None:
+                install(g, None)
+                sibx.dead_for[W] = {sibx.calls.get(W, 0) + case["interloper"]["sib"][2] % len(per[sibx.idx])}
             for s_ in g.servers:
                 if s_.idx not in gone and s_.idx not in after_b_down:
                     s_.down = False
                     s_.reconnect()
                 elif s_.idx in after_b_down:
                     s_.down = True
-            nprob = len(mon.problems)
+            nprob, nenc = len(mon.problems), len(mon.encountered)
             g.sched.choices, g.sched.ci = list(case["sched"]), 0
             rA = g.sched.run_until(Publish(node, g.c0.broker, smr[1]).publish(mutfile.mdata(new)), maxsteps=20000)
             g.sched.settle()
@@ -239,7 +292,46 @@ def run_case(case, ctx):
                 mine = [pr for pr in mon.problems[nprob:] if pr.startswith("client %d " % g.c0.idx)]
                 ctx.check(not mine, "success-over-unexpected-version", "fmt=%s k=%d N=%d servers=%d history=%r: the publish reported success although %s" % (fmt, k, n, nserv, hist, "; ".join(mine[:2])), n=len(mine))
                 nt = True
+            if rA[0] == "ok":
+                # "...and no unexpected version was encountered": nothing the servers answered to its writes may have shown it a share in a state it had neither
+                # been shown by its survey nor written itself
+                enc = [t_ for (c_, t_) in mon.encountered[nenc:] if c_ == g.c0.idx]
+                ctx.check(not enc, "success-after-unexpected-version-shown", "fmt=%s k=%d N=%d servers=%d history=%r: the publish reported success although %s" % (fmt, k, n, nserv, hist, "; ".join(enc[:2])), n=len(enc))
+                if sibx is not None:
+                    nt = True
             raise _Done()
+        planB = case["planB"]
+        if case.get("mid"):
+            si_ = node.get_storage_index()
+            holders = sorted(set(sidx for (sidx, shn, p_) in g.all_share_paths(si_)))
+            down = set(holders[x % len(holders)] for x in case["mid"]["down"])
+            if len(down) < nserv:
+                install(g, None)
+                for s_ in g.servers:
+                    s_.down = s_.idx in down
+                    if s_.down and case["mid"].get("leave"):
+                        g.c0.forget(s_)
+                mid_contents = pbytes(9, case["size"])
+                rm = g.run(node.overwrite(mutfile.mdata(mid_contents)))
+                for s_ in g.servers:
+                    s_.down = False
+                    s_.reconnect()
+                    if s_.idx in down and case["mid"].get("leave"):
+                        g.c0.connect(s_)
+                if case["mid"].get("leave"):
+                    classes.add("stale-shares-before-publish:share-numbers-rehomed")
+                hist.append(("overwrite(%d bytes) while servers %r are away; they return" % (len(mid_contents), sorted(down)), rm[0] if rm[0] != "err" else type(rm[1]).__name__))
+                if rm[0] != "ok":
+                    raise _Done()
+                first_contents = contents
+                prev[0] = contents = mid_contents
+                hidden[0] = True
+                classes.add("stale-shares-before-publish")
+                if case["mid"]["failnew"]:
+                    # the writes to the servers that took part in that overwrite are the ones that fail now
+                    planB = [[("dead-write", "fail-write", "down", "applied-unacked")[arg % 4] if s_.idx not in down else "ok", arg] for s_, (kd, arg) in zip(g.servers, planB)]
+                    classes.add("stale-shares-before-publish:new-holders-fail")
+        alt = []
         if case["op"] == "overwrite" or len(contents) == 0:
             want = new
             start = lambda: node.overwrite(mutfile.mdata(new))
@@ -249,15 +341,18 @@ def run_case(case, ctx):
             if fmt == "mdmf" and off == len(contents) and off % segeff == 0:
                 off -= 1      # appending exactly at a segment boundary fails today for other reasons (see C09)
             want = contents[:off] + new + contents[off + len(new):]
+            if hidden[0]:
+                # a writer that cannot reach the holders of the overwrite in between works from the creation version
+                alt = [first_contents[:off] + new + first_contents[off + len(new):]]
             classes.add("update")
 
             def start():
                 d = node.get_best_mutable_version()
                 d.addCallback(lambda mv: mv.update(mutfile.mdata(new), off))
                 return d
-        r, desc = publish("%s(%d bytes)" % (case["op"], len(new)), case["planB"], start)
+        r, desc = publish("%s(%d bytes)" % (case["op"], len(new)), planB, start)
         if r[0] == "ok":
-            verify(want, desc)
+            verify(want, desc, alt)
     except _Done:
         pass
     finally:
